@@ -123,6 +123,27 @@ def handle : Handler := fun fn args =>
       let seeds ← seedsOfJson (← argAt args 1)
       let ops ← asList nopOfJson (← argAt args 2)
       .ok (.arr ((nrun fb (Rngs.mk' seeds) ops).map noutToJson).toArray)
+  | "nnx_node" => do
+      let objs ← asList (fun o => do
+        let id ← asNat (← argAt o 0)
+        let tag ← asStr (← argAt o 1)
+        let sid ← asNat (← argAt o 2)
+        .ok (id, ({ tag := tag, key := .scalar (.seed sid), count := .scalar 0 } : Stream))) (← argAt args 0)
+      let places ← asList (fun o => do .ok (← asStr (← argAt o 0), ← asNat (← argAt o 1))) (← argAt args 1)
+      let ops ← asList (fun j => do
+        let tag ← asStr (← argAt j 0)
+        match tag with
+        | "call" => .ok (NodeOp.call (← asStr (← argAt j 1)))
+        | "reseed" => .ok (NodeOp.reseed (← seedsOfJson (← argAt j 1)))
+        | "state" => .ok NodeOp.state
+        | _ => .error "bad-args") (← argAt args 2)
+      let outs := nodeRun { objs := objs, places := places } ops
+      .ok (.arr (outs.map (fun o => match o with
+        | .key k => Json.mkObj [("key", keyToJson k)]
+        | .unit => Json.mkObj [("unit", Json.null)]
+        | .state ss => Json.mkObj [("state", .arr (ss.map (fun (p : Nat × Stream) =>
+            Json.arr #[Json.num p.1, keyValToJson p.2.key, countValToJson p.2.count])).toArray)]
+        | .err e => Json.mkObj [("err", .str (errName e))])).toArray)
   | "stream_history" => do
       let sid ← asNat (← argAt args 0)
       let ops ← asList (fun j => do
